@@ -9,6 +9,7 @@ import (
 	"fmt"
 	"go/ast"
 	"go/token"
+	"sort"
 	"strings"
 
 	"verifextract/ex"
@@ -75,8 +76,14 @@ func (k *skel) expr(e ast.Expr) string {
 				}
 			}
 			if keyed {
+				// normal form: the fields in the order of their names (the order in which a keyed literal lists its
+				// fields is not a change; the field expressions of these bodies have no side effects)
+				elts := append([]ast.Expr{}, v.Elts...)
+				sort.SliceStable(elts, func(i, j int) bool {
+					return elts[i].(*ast.KeyValueExpr).Key.(*ast.Ident).Name < elts[j].(*ast.KeyValueExpr).Key.(*ast.Ident).Name
+				})
 				s := "(.call (.lit " + lstr(strings.ReplaceAll(norm(k.c, v.Type), " ", "")+"{}") + "))"
-				for _, el := range v.Elts {
+				for _, el := range elts {
 					kv := el.(*ast.KeyValueExpr)
 					s = "(.arg " + s + " (.pair (.var " + lstr(kv.Key.(*ast.Ident).Name) + ") " + k.expr(kv.Value) + "))"
 				}
